@@ -502,19 +502,51 @@ func (w *rsWorld) exec(line string) string {
 			return n
 		}
 		// wait until the pass has finished, or every subscriber that is going to rewind is stuck in its rewind
-		last, quiet := -1, 0
-		for quiet < 40 {
+		expected := 0
+		for _, s := range w.subs {
+			for _, name := range w.tracked(s) { // ascending
+				var n uint64
+				var v int
+				fmt.Sscanf(name, "%d.%d", &n, &v)
+				c := w.canonical(n)
+				if c == "" {
+					break // the header cannot be fetched: the pass stops there
+				}
+				if c != name {
+					expected++
+					break
+				}
+			}
+		}
+		deadline := time.Now().Add(10 * time.Second)
+		for entered() < expected && time.Now().Before(deadline) {
 			select {
 			case <-done:
-				quiet = 1000
+				deadline = time.Now()
 			default:
+				time.Sleep(200 * time.Microsecond)
 			}
-			if n := entered(); n != last {
-				last, quiet = n, 0
-			} else if n > 0 {
-				quiet++
+		}
+		if expected == 0 {
+			select {
+			case <-done:
+			case <-time.After(10 * time.Second):
+				panic("harness: detection pass without a rewind did not finish")
 			}
-			time.Sleep(500 * time.Microsecond)
+		} else {
+			// the passes of the subscribers that do not rewind are a few deletes; let the tracked lists settle
+			prev := ""
+			for i := 0; i < 200; i++ {
+				cur := ""
+				for _, s := range w.subs {
+					cur += lst(w.tracked(s)) + "|"
+				}
+				if cur == prev && i > 10 {
+					break
+				}
+				prev = cur
+				time.Sleep(time.Millisecond)
+			}
 		}
 		// stop: cancel the node's context, give the detection pass a moment to react to it, then close everything
 		w.cancel()
